@@ -153,6 +153,12 @@ func NewRouterInfo(
 
 	routerInfo.signature = signature
 
+	// A RouterInfo that fails its own structural validation (no addresses, zero published
+	// date, ...) must not be returned as a successfully constructed value.
+	if err := routerInfo.Validate(); err != nil {
+		return nil, err
+	}
+
 	log.WithFields(logger.Fields{
 		"router_identity": routerIdentity,
 		"published":       publishedDate,
